@@ -358,6 +358,18 @@ def step (w : World) (line : String) : World × String :=
         (w, showStep st o')
       | none => (w, "no-store")
     | _, _, _, _, _, _ => (w, "bad-op")
+  -- the same without counters (for comparison with backends that keep none)
+  | ["tprocplain", sid, ns, now, maxSet, split, msg] =>
+    match parseNat? sid, Bytes.ofHex ns, parseNat? now, parseNat? maxSet, parseNat? split, parseMessage? msg with
+    | some sid, some ns, some now, some maxSet, some split, some msg =>
+      match w.getT sid with
+      | some t =>
+        let st := Ranger.processMessage (Ranger.tableOps ns) { maxSetSize := maxSet, splitFactor := split }
+          (Replica.syncValidate now ns) (fun _ => 2) t msg
+        (w.setT sid st.store, "reply " ++ (match st.reply with | some m => showMessage m | none => "none") ++
+          " ins " ++ showValues st.inserted)
+      | none => (w, "no-store")
+    | _, _, _, _, _, _ => (w, "bad-op")
   -- `Replica::insert_remote_entry` with validation
   | ["tremote", sid, ns, now, tok] =>
     match parseNat? sid, Bytes.ofHex ns, parseNat? now, parseEntry? tok with
